@@ -295,7 +295,7 @@ def run(db, chk) -> None:
     # default selections do not depend on the order in which ranks were parsed
     fr = tm.func("Trace._get_first_rank")
     vals = [ast.unparse(H.expand(fr, v)) for t, v, s_ in H.assignments(fr) if H.name_id(t) == "rank"] + [ast.unparse(H.expand(fr, r_.value)) for r_ in ast.walk(fr) if isinstance(r_, ast.Return) and r_.value is not None and not isinstance(r_.value, ast.Name)]
-    txt = " ".join(vals)
+    txt = " ".join(vals + [ast.unparse(v) for t, v, s_ in H.assignments(fr) if H.name_id(t) != "rank"])      # incl. the locals the value is computed from
     ordered = any(k in txt for k in ("get_ranks()", "sorted(", "min("))
     insertion = any(k in txt for k in ("next(iter(", "list(self.traces)", "list(self.traces.keys())", "self.traces.keys())[0]")) and "sorted(" not in txt
     chk.ob("C11.R3-ordered-collection", "the default rank (rank=None) is the LOWEST loaded rank, not the first one parsed", True if ordered and not insertion else (False if insertion else None), tm.loc(fr),
